@@ -7,6 +7,16 @@ ALL = ["C%02d" % i for i in range(1, 21)]
 
 # id -> (level, technique, level text, level note, design ref)
 CLAIMS = {
+ "C04": ("exploration",
+         "rapid value generators per data type (boundary-biased) + exhaustive small domains / every day / every tick; oracle = round trip (Bytes -> GoValue -> Bytes) compared through an independent value description",
+         "Every data type with a Go mapping (each legal width of the nullable families) is round-tripped for generated values over the whole Go domain; 8- and 16-bit domains, NULLs, every day of years 1..9999 and every 1/300 s tick are enumerated completely in the thorough tier (stride-sampled in quick).",
+         "Values are UTC, dates at midnight, classic temporal values within half a tick of a tick (sound domain of the types); Go's time package is trusted for constructing time.Time from civil fields.",
+         "DESIGN.md section 3, C04"),
+ "C05": ("exploration",
+         "differential testing against an independently written reference codec (encoding/binary, math/big, own civil-date arithmetic) in both directions + documented fixed vectors + exhaustive calendar sweep",
+         "For generated values of every data type the library's wire bytes must equal the reference encoding and the reference encoding must decode to the value; documented minima/maxima/epoch vectors anchor the reference; the calendar helpers are compared with own civil-date arithmetic for every day of years 1..9999 (thorough) and are checked to be inverse and additive.",
+         "The reference codec is my reading of TDS 5.0, not a live ASE; vectors from the ASE documentation guard against a shared misunderstanding.",
+         "DESIGN.md section 3, C05"),
  "C15": ("exploration",
          "rapid model-based operation sequences (rx and tx usage) against a flat byte-slice / packet-layout model + exhaustive enumeration of all short sequences over a tiny packet size",
          "Operation sequences over the exported PacketQueue API are compared step by step with a flat byte model (bytes out = bytes in, in order; short read = ErrNotEnoughBytes; restore re-reads; discard is invisible) and a layout model for writes (Position after every write); all sequences up to length 5/6 (quick) and 7/8 (thorough) over small alphabets are enumerated completely.",
